@@ -20,8 +20,13 @@ POW2 = [1 << k for k in range(13)]          # 1..4096
 REPO_SRC = ["rkcommon/memory/malloc.cpp"]
 
 
+# ASan: requests above 256 MB are refused (null -> bad_alloc) instead of being mapped and shadow-poisoned
+# (a request of 2^39 bytes costs seconds of kernel time); the property oracle accepts bad_alloc for them.
+ASAN_ENV = {"ASAN_OPTIONS": vlib.Ctx.SAN_ENV["ASAN_OPTIONS"] + ":max_allocation_size_mb=256"}
+
+
 # ------------------------------------------------------------------ running
-def run_cases(ctx, exe, cases, nchunks=12, timeout=900):
+def run_cases(ctx, exe, cases, nchunks=4, timeout=900, env=None):
     """Run case lines through an executable in parallel chunks.  Returns (lines, crashes);
     a case on which the executable died gets the line '<crash rc=..>' and is listed in crashes."""
     n = len(cases)
@@ -35,7 +40,7 @@ def run_cases(ctx, exe, cases, nchunks=12, timeout=900):
         lines, crashes = [], []
         pos = 0
         while pos < len(cs):
-            rc, out, err = ctx.run_exe(exe, [], stdin="\n".join(cs[pos:]) + "\n", timeout=timeout)
+            rc, out, err = ctx.run_exe(exe, [], stdin="\n".join(cs[pos:]) + "\n", timeout=timeout, env=env)
             got = out.split("\n")
             got = got[:-1] if out.endswith("\n") else got
             got = got[:len(cs) - pos]
@@ -316,16 +321,19 @@ def run(ctx):
     ctx.log("cases: corpus %d arith %d heap %d vec %d+%d (+%d real only)" % (len(corpus), len(arith), len(heap), len(vec_small), len(vec_fail), len(vec_big)))
 
     mlines, mcr = run_cases(ctx, model, modelled)
+    ctx.log("model done")
     if mcr or len(mlines) != len(modelled):
         ctx.broken.append("model driver failed on case %r" % (modelled[mcr[0][0]] if mcr else "?"))
         return
     runs = []     # (label, exe, exact, cases, lines, expected-or-None)
     lines, cr = run_cases(ctx, spy, modelled)
+    ctx.log("spy done")
     runs.append(("spy back end", spy, True, modelled, lines, mlines, cr))
     realcases = [c for c in modelled if real_ok(c) and c[0] != "S"]
     rexp = [abstract(c, mlines[i]) for i, c in enumerate(modelled) if real_ok(c) and c[0] != "S"]
     for label, exe in (("_mm_malloc back end (ASan)", mm), ("TBB scalable allocator back end", tbb)):
-        lines, cr = run_cases(ctx, exe, realcases + vec_big)
+        lines, cr = run_cases(ctx, exe, realcases + vec_big, env=ASAN_ENV)
+        ctx.log(label + " done")
         runs.append((label, exe, False, realcases + vec_big, lines, rexp + [None] * len(vec_big), cr))
     ctx.count(sum(len(x[3]) for x in runs))
 
